@@ -276,7 +276,7 @@ def parse_obs(step, tag, t):
         if True:
             if tag == "meta":
                 step.obs["meta"] = dict(x.split("=", 1) for x in t[2:])
-            elif tag in ("limits", "conformal", "pidx", "nidx", "apipidx", "apinidx", "polyi", "polyq", "hsp_pntr", "hsp_indx", "inside", "estaniso", "tensors", "utensors", "numpoints"):
+            elif tag in ("limits", "conformal", "pidx", "nidx", "apipidx", "apinidx", "polyi", "polyq", "hsp_pntr", "hsp_indx", "hsnz", "inside", "estaniso", "tensors", "utensors", "numpoints"):
                 step.obs[tag] = [int(v) for v in t[3:]]
             elif tag in ("bytes", "written"):
                 step.obs[tag] = (int(t[2]), t[3])
